@@ -293,7 +293,9 @@ outerloop:
 
 		opElementLength = PDUSessionEstablishmentAcceptOptionalElementsLength[opElementID]
 
-		if opElementLength > 0 {
+		if opElementLength == 0 { // Unknown element: its length is not known, stop looking
+			break outerloop
+		} else if opElementLength > 0 {
 			index += opElementLength
 		} else if opElementLength == -1 { // 1 byte long length indicator
 			opElementLength = int(opElements[index+1])
